@@ -35,6 +35,12 @@ func BuildMoqSimos(s *Scratch) (string, string, error) {
 	if err := CopyTree(RepoDir, dst); err != nil {
 		return "", "", Fatal2("copying /repo: %v", err)
 	}
+	// the CLI also gets the map-order seam: every moq process is given its own
+	// order seed (SIMHOOK_SEED, derived from the scenario), so an order-dependent
+	// result is both provoked and exactly replayable
+	if _, err := seam.SeamGenerator(dst, GoEnv(), false, false); err != nil {
+		return "", "", Fatal2("inserting the map-order seam into the CLI copy failed (not a verdict): %v", err)
+	}
 	changed, err := seam.RedirectImports(dst, map[string]string{"os": seam.SimosPath, "io/ioutil": seam.SimioutilPath})
 	if err != nil {
 		return "", "", Fatal2("redirecting os imports (not a verdict): %v", err)
@@ -266,6 +272,9 @@ func CliCheck(prop, tier string) error {
 			continue
 		}
 		lines = append(lines, fmt.Sprintf("VIOLATION property=%s replay=%s class=%s :: %s", prop, dst, sg, f.Detail))
+	}
+	if pf.FaultPM >= 200 && total.FaultsUnfired > 20 && sumMap(total.FaultsFired) == 0 {
+		return Fatal2("none of the %d planned faults fired: moq's file operations do not go through the os package the simulator replaced (not a verdict)", total.FaultsUnfired)
 	}
 	ev := &Evidence{PropertyID: prop, Tier: tier, Seed: int64(seed), Level: "exploration", Coverage: map[string]any{}}
 	cov := ev.Coverage
